@@ -116,11 +116,17 @@ type reqCase struct {
 	TTL     int        `json:"ttl"`
 	Channel string     `json:"channel"`
 	Op      string     `json:"op,omitempty"`
+	// Omit lists ("+"-joined) the JSON fields left out of the request: key, channel, type, ttl. The request is sent
+	// right after a complete, successful request on the same connection; an omitted field means "not requested".
+	Omit string `json:"omit,omitempty"`
 }
 
 func (r reqCase) String() string {
 	if r.Part == "use" {
 		return fmt.Sprintf("use|%s|%s|%s", r.Parent, r.Op, r.Channel)
+	}
+	if r.Omit != "" {
+		return fmt.Sprintf("req|%s|%q|%d|%q|omit=%s", r.Parent, r.Type, r.TTL, r.Channel, r.Omit)
 	}
 	return fmt.Sprintf("req|%s|%q|%d|%q", r.Parent, r.Type, r.TTL, r.Channel)
 }
@@ -440,8 +446,27 @@ func (w *worker) request(rc reqCase, wantGrants bool) (out outcome, vs []viol) {
 	add := func(clause, what string) {
 		vs = append(vs, viol{kind + ":" + clause, fmt.Sprintf("%s: %s", rc, what)})
 	}
+	body := map[string]interface{}{"key": pk.str, "channel": rc.Channel, "type": rc.Type, "ttl": rc.TTL}
+	if rc.Omit != "" {
+		// what was not sent was not requested: no key -> nothing may be minted; no type -> no permission;
+		// no ttl -> no expiry; no channel -> the empty channel
+		kind = "omitted(" + rc.Omit + ")"
+		for _, f := range strings.Split(rc.Omit, "+") {
+			delete(body, f)
+			switch f {
+			case "key":
+				pk = &parentKey{class: "none"}
+			case "type":
+				rc.Type = ""
+			case "ttl":
+				rc.TTL = 0
+			case "channel":
+				rc.Channel = ""
+			}
+		}
+	}
 	t0 := time.Now()
-	resp, ok := w.cl.Request("keygen", map[string]interface{}{"key": pk.str, "channel": rc.Channel, "type": rc.Type, "ttl": rc.TTL})
+	resp, ok := w.cl.Request("keygen", body)
 	t1 := time.Now()
 	if !ok {
 		add("no-response", "the keygen request was not answered")
@@ -854,6 +879,40 @@ func run(c *core.Ctx) {
 	}
 	close(jobs)
 	wg.Wait()
+
+	// part 1b: requests that leave fields out, each sent right after a complete successful request on the same
+	// connection (all 15 non-empty subsets of {key, channel, type, ttl}, repeated so that whatever the handler
+	// reuses between requests gets its chance)
+	if pw, err := h.newWorker("partial"); err == nil {
+		fields := []string{"key", "channel", "type", "ttl"}
+		for rep := 0; rep < 6; rep++ {
+			for m := 1; m < 16; m++ {
+				var om []string
+				for i, f := range fields {
+					if m&(1<<uint(i)) != 0 {
+						om = append(om, f)
+					}
+				}
+				prime := reqCase{Part: "request", Parent: parentSpec{Kind: "master"}, Type: "rwsl", TTL: 120, Channel: "a/b/"}
+				if out, _ := pw.request(prime, false); !out.Minted {
+					c.Violate("harness:control:prime", "a complete master request did not mint a key", prime)
+				}
+				rc := reqCase{Part: "request", Parent: parentSpec{Kind: "master"}, Type: "rw", TTL: 60, Channel: "a/", Omit: strings.Join(om, "+")}
+				out, vs := pw.request(rc, false)
+				c.Add("evaluations", 2)
+				c.Add("requests_with_omitted_fields", 1)
+				if out.Minted {
+					c.Distinct("nontrivial", rc.String())
+				}
+				for _, v := range vs {
+					c.Violate(v.sig, v.what, rc)
+				}
+			}
+		}
+		pw.close()
+	} else {
+		c.Violate("harness:connect", err.Error(), reqCase{Part: "connect"})
+	}
 
 	// part 2: extendable keys used directly
 	useJobs := make(chan reqCase)
